@@ -788,6 +788,148 @@ def check_C11(tier, seed, replay):
     return res
 
 
-CHECKS = {"C11": check_C11, "C01": check_C01, "C02": check_C02, "C04": check_C04, "C05": check_C05, "C06": check_C06,
+
+# ---------------------------------------------------------------------------------------------- C18
+def hist_line(h):
+    out = []
+    for st in h:
+        if st["a"] == "init":
+            out.append("i:" + st["g"])
+        elif st["a"] == "edit":
+            out.append("e:" + st["g"])
+        elif st["a"] == "prefix":
+            out.append("p:" + "".join(st["p"]))
+        elif st["a"] == "delete":
+            out.append("d")
+        else:
+            out.append("r")
+    return ";".join(out)
+
+
+PREFIX_TEXT = {"": "", "p": "// p", "pq": "// p q", "u": "use  std::fmt::Debug  as  _;"}
+
+
+def check_C18(tier, seed, replay):
+    import subprocess
+    res = Result()
+    sfx = "" if tier == "quick" else "_thorough"
+    # 1. the protocol as the property states it: TLC checks Fresh / Untouched / FailSafe on all histories
+    ti = tlc_simple("bs_intended", "BuildScript.tla", "BuildScript_intended%s.cfg" % sfx, tier)
+    if ti["rc"] != 0:
+        raise ToolError("BuildScript (intended protocol) violates its own property:\n%s" % (ti["violation"] or "")[:2000])
+    # 2. the protocol as implemented (run_on_single_file line by line): deviates from the property only in the
+    #    two known ways; emits every history for replay
+    runs_ = []
+    for name, cfg in (("bs_impl", "BuildScript_impl%s.cfg" % sfx), ("bs_impl_fmt", "BuildScript_impl_fmt%s.cfg" % sfx)):
+        t = tlc_simple(name, "BuildScript.tla", cfg, tier)
+        if t["rc"] != 0:
+            raise ToolError("BuildScript (as implemented) deviates from the property beyond the known findings:\n%s" % (
+                t["violation"] or "")[:2000])
+        runs_.append(t)
+    # 3. TLC must still *find* the known design flaw in the implementation-shaped model (the binding is live)
+    tv = tlc_simple("bs_violation", "BuildScript.tla", "BuildScript_violation.cfg", tier)
+    model_finds = tv["rc"] != 0
+    hists = []
+    for t in runs_:
+        for o in t["prints"]:
+            if any(st["a"] == "run" for st in o["h"]):
+                hists.append((o["format"], hist_line(o["h"])))
+    if replay:
+        rp = json.load(open(replay))
+        hists = [(rp["format"], rp["history"])]
+    # steps after the last run change nothing observable; a history that is a prefix of another one is
+    # replayed as part of it (predicates are evaluated after every run)
+    trunc = set()
+    for fmt, hl in hists:
+        st = hl.split(";")
+        while st and st[-1] != "r":
+            st.pop()
+        trunc.add((fmt, ";".join(st)))
+    allh = sorted(trunc)
+    keep = []
+    for i, (fmt, hl) in enumerate(allh):
+        nxt = allh[i + 1] if i + 1 < len(allh) else None
+        if nxt is not None and nxt[0] == fmt and nxt[1].startswith(hl + ";"):
+            continue
+        keep.append((fmt, hl))
+    hists = keep if not replay else hists
+    modes = ["file", "dest", "dir"]
+    d = vlib.famdir("buildscript", tier)
+    cf = os.path.join(d, "histories.tsv")
+    lines = []
+    for fmt, hl in hists:
+        for m in (modes if not replay else [json.load(open(replay)).get("mode", "file")]):
+            if m == "dir" and ("e:missing" in hl or "i:missing" in hl):
+                continue      # in directory mode a missing grammar file is simply not visited
+            if fmt and m != "file":
+                continue      # formatting is orthogonal to where the destination is
+            lines.append((m, fmt, hl))
+    binp = tools_bin("buildscript")
+    t0 = time.time()
+    nchunk = min(vlib.NCPU, max(1, len(lines) // 50))
+    procs = []
+    for k in range(nchunk):
+        part = lines[k::nchunk]
+        with open("%s.%d" % (cf, k), "w") as f:
+            for m, fmt, hl in part:
+                f.write("%s\t%d\t%s\n" % (m, 1 if fmt else 0, hl))
+        procs.append(subprocess.Popen([binp, "%s.%d" % (cf, k), os.path.join(d, "out.%d.jsonl" % k),
+                                       os.path.join(d, "scratch%d" % k)], stdout=subprocess.PIPE, stderr=subprocess.PIPE, text=True))
+    for k, p_ in enumerate(procs):
+        _, err = p_.communicate(timeout=7200)
+        if p_.returncode != 0:
+            raise ToolError("buildscript replayer failed rc=%d: %s" % (p_.returncode, err[-1000:]))
+    log("buildscript replay: %d histories in %.0fs" % (len(lines), time.time() - t0))
+    outs = [None] * len(lines)
+    for k in range(nchunk):
+        for j, l in enumerate(open(os.path.join(d, "out.%d.jsonl" % k))):
+            outs[k + j * nchunk] = json.loads(l)
+    steps = 0
+    nontriv = 0
+    for (m, fmt, hl), o in zip(lines, outs):
+        if hl.count("r") >= 2:
+            nontriv += 1
+        for r in o["runs"]:
+            steps += 1
+            ex = {"history": hl, "mode": m, "format": fmt, "run_step": r["i"], "observed": r}
+            pt, dpt = PREFIX_TEXT[r["prefix"]], PREFIX_TEXT[r["dest_prefix"]]
+            if r["panic"]:
+                res.add(Violation("C18", "NoPanic", "Compile::run panicked in history %s" % hl, None, dict(ex, site="panic")))
+            if r["ok"] and not r["valid"]:
+                res.add(Violation("C18", "FailSafe", "run returned Ok on an unreadable or invalid grammar (%s) in history %s" % (
+                    r["src"], hl), None, dict(ex, site="ok-on-invalid")))
+            if r["ok"] and r["valid"] and not r["fresh"]:
+                site = "stale-prefix-shrink" if (dpt != pt and dpt.startswith(pt)) else "other"
+                res.add(Violation("C18", "Fresh", "after a successful run the destination is not the compilation of the "
+                                  "current grammar and prefix (history %s, mode %s)" % (hl, m), None, dict(ex, site=site)))
+            if r["was_current"] and r["touched"]:
+                site = "rustfmt-unstable-prefix" if (fmt and r["prefix"] == "u") else "other"
+                res.add(Violation("C18", "Untouched", "a destination that was already current was rewritten (history %s, "
+                                  "mode %s)" % (hl, m), None, dict(ex, site=site)))
+            if not r["ok"] and not r["same"]:
+                res.add(Violation("C18", "FailSafe", "a failing run changed the destination (history %s, mode %s)" % (hl, m),
+                                  None, dict(ex, site="changed-on-error")))
+            if not r["ok"] and r["valid"] and not r["panic"]:
+                res.add(Violation("C18", "Fresh", "run failed on a valid grammar (history %s, mode %s)" % (hl, m), None,
+                                  dict(ex, site="err-on-valid")))
+    res.coverage = {
+        "states": ti["distinct"] + sum(t["distinct"] for t in runs_), "transitions": ti["states"] + sum(t["states"] for t in runs_),
+        "traces_validated_against_impl": len(lines), "evaluations": steps, "distinct_nontrivial": nontriv,
+        "rule": "every history of {edit grammar (2 valid, syntactically invalid, semantically invalid, missing), change "
+                "prefix (empty, p, pq with p a proper prefix of pq, a rustfmt-unstable one), delete destination, run} up to "
+                "the depth bound, enumerated by TLC and replayed against the real Compile in file / explicit-destination / "
+                "directory mode, formatting off and on; non-trivial = history with at least two runs",
+        "exhaustive": True, "model_finds_known_flaw": model_finds,
+        "samples": [{"history": hl, "mode": m, "format": fmt, "runs": o["runs"]} for (m, fmt, hl), o in
+                    list(zip(lines, outs))[7::max(1, len(lines) // 3)][:3]],
+    }
+    if not model_finds:
+        raise ToolError("vacuity: TLC no longer finds the stale-destination flaw in the implementation-shaped model")
+    res.assumptions = ["the expected bytes are header + prefix + code compiled afresh through the library (and rustfmt)",
+                       "directory mode is replayed with one grammar file; the model is the single-file protocol"]
+    return res
+
+
+CHECKS = {"C18": check_C18, "C11": check_C11, "C01": check_C01, "C02": check_C02, "C04": check_C04, "C05": check_C05, "C06": check_C06,
           "C07": check_C07, "C08": check_C08, "C09": check_C09, "C10": check_C10, "C13": check_C13,
           "C14": check_C14, "C19": check_C19}
